@@ -7,25 +7,26 @@ import warnings
 import numpy as np
 from hypothesis import strategies as st
 
-from .. import common, gen as G, loopsem as L, expr as X
+from .. import common, gen as G, loopsem as L, expr as X, loopvmap as LV
 from ..common import Violation
 from ._base import standard_run, standard_worker
 
 PROP = "C15"
 RULE = (
-    "einx.numpy.adapt_numpylike_reduce / adapt_numpylike_elementwise are wrapped around instrumented pure numpy functions "
+    "einx.numpy.adapt_numpylike_reduce / adapt_numpylike_elementwise and adapt_with_vmap (jax front-end over the loop-vmap "
+    "double; generated 1-3 inputs / 1-2 outputs with shared, output-only, numeric and ellipsis bracket axes) are wrapped around instrumented pure numpy functions "
     "(with and without keyword-only options) and called with generated descriptions valid for the adapter's signature class "
     "(flatten, ellipsis, diagonal, squeeze, broadcast, permutation as in C01), in short histories of 1-3 calls whose option "
     "values change, repeat or are hash-equal twins (2 / 2.0 / True); option values: ints, floats incl. nan/inf/-0.0, bools, None, "
     "strings with quotes, backslashes, newlines and non-ASCII, tuples, lists, numpy scalars. Oracle: result equals the loop "
     "interpreter with the same Python function as elementary operation; recorded arguments: reduce receives the aligned tensor "
-    "and axis = tuple of the bracketed positions, element-wise receives equal-rank broadcast-compatible tensors; every option "
+    "and axis = tuple of the bracketed positions, element-wise receives equal-rank broadcast-compatible tensors, vmap receives the bracketed sub-tensors; every option "
     "value arrives == and type-identical in every call; an axis named like an option raises SemanticError; functions returning "
     "a wrong type / rank / shape / arity make the call raise. Non-trivial: a call with a keyword option, >=2 bracketed axes or a "
     "rank-changing alignment; distinct by (adapter, canonical call, function, option kinds)."
 )
 ASSUMPTIONS = [
-    "adapt_with_vmap cannot be executed here (numpy has no vmap); only einx's numpy adapters are exercised",
+    "no vmap-capable framework is installed: adapt_with_vmap is einx's own einx.jax.adapt_with_vmap code run over numpy and a Python-loop vmap (einxverif/loopvmap.py); the function is therefore called once per vectorised index",
     "option values are drawn from plain data (no arbitrary objects)",
 ]
 
@@ -80,8 +81,11 @@ def decode(v):
 
 @st.composite
 def c15_case(draw, tier="quick"):
-    adapter = draw(st.sampled_from(["reduce", "reduce", "elementwise"]))
-    if adapter == "reduce":
+    adapter = draw(st.sampled_from(["reduce", "reduce", "elementwise", "vmap", "vmap"]))
+    if adapter == "vmap":
+        base = draw(G.call_case(ops=["vmapop"], quick=True, backends=[None]))
+        fn = draw(st.sampled_from(["vm", "vm", "vm_plain"]))
+    elif adapter == "reduce":
         base = draw(G.call_case(ops=["sum"], quick=True, backends=[None]))
         fn = draw(st.sampled_from(["sumsq", "wmax", "plain"]))
     else:
@@ -93,7 +97,7 @@ def c15_case(draw, tier="quick"):
             if fn is None:
                 base = draw(G.call_case(ops=["subtract"], quick=True, backends=[None]))
                 fn = "poly"
-    has_opts = fn in ("sumsq", "poly", "unary")
+    has_opts = fn in ("sumsq", "poly", "unary", "vm")
     history = []
     ncalls = draw(st.integers(1, 3))
     for i in range(ncalls):
@@ -127,6 +131,9 @@ class Recorder:
 
 
 _WARM = []
+
+
+make_vm_fn = LV.make_elementary
 
 
 def make_fn(name, rec, bad=None):
@@ -186,6 +193,15 @@ def same_value(a, b):
     return a == b
 
 
+def _plain_eq(p, v):
+    if isinstance(p, (list, tuple, str, type(None))) or isinstance(v, (list, tuple, str, type(None))):
+        return type(p) is type(v) and p == v
+    try:
+        return bool(p == v)
+    except Exception:  # noqa: BLE001
+        return False
+
+
 def evaluate(rc, stats):
     import einx
 
@@ -195,8 +211,13 @@ def evaluate(rc, stats):
     special = rc["special"]
     rec = Recorder()
     bad = special if special and special.startswith("bad_") else None
-    user = make_fn(fname, rec, bad=bad)
-    adapt = einx.numpy.adapt_numpylike_reduce if adapter == "reduce" else einx.numpy.adapt_numpylike_elementwise
+    if adapter == "vmap":
+        out_shapes = [tuple(X.br_shape(o, env)) for o in base["outs"]]
+        user = make_vm_fn(fname, rec, out_shapes, bad=bad)
+        adapt = LV.adapt_with_vmap
+    else:
+        user = make_fn(fname, rec, bad=bad)
+        adapt = einx.numpy.adapt_numpylike_reduce if adapter == "reduce" else einx.numpy.adapt_numpylike_elementwise
     if not _WARM:
         # the first function adapted in a process has no keyword-only options; all instrumented functions share one
         # qualified name, so anything einx remembers per function *name* would leak from this one to the later ones
@@ -206,10 +227,11 @@ def evaluate(rc, stats):
     stats.count("adapter:" + adapter)
     stats.count("fn:" + fname)
     desc = base["desc"]
-    where0 = f"adapt_numpylike_{adapter}({fname})({desc!r}, shapes={[a.shape for a in arrays]}, sizes={base['sizes']}"
+    aname = "adapt_with_vmap[loop vmap]" if adapter == "vmap" else f"adapt_numpylike_{adapter}"
+    where0 = f"{aname}({fname})({desc!r}, shapes={[a.shape for a in arrays]}, sizes={base['sizes']}"
 
     if special == "axis_named_like_option":
-        if fname not in ("sumsq", "poly", "unary"):
+        if fname not in ("sumsq", "poly", "unary", "vm"):
             return []
         # rename one axis to an option name: must raise SemanticError, never be taken as a size
         from .. import relations as R
@@ -227,7 +249,7 @@ def evaluate(rc, stats):
             return []
         except Exception as e:  # noqa: BLE001
             return [Violation(common.exc_bucket(PROP, e, "option_axis_clash"), f"{where0}) with an axis named 'scale' raised {type(e).__name__} instead of SemanticError: {str(e)[:200]}")]
-        return [Violation("C15|option_axis_clash|accepted", f"adapt_numpylike_{adapter}({fname})({twin['desc']!r}) accepted an axis named like the keyword-only option 'scale'")]
+        return [Violation("C15|option_axis_clash|accepted", f"{aname}({fname})({twin['desc']!r}) accepted an axis named like the keyword-only option 'scale'")]
 
     if bad:
         stats.count("special:" + bad)
@@ -240,23 +262,28 @@ def evaluate(rc, stats):
             return []
         # a wrong shape may coincide with the right one for degenerate sizes
         exp_shape = tuple(X.shape_of(X.expand(base["outs"][0]), env))
-        if bad == "bad_shape" and np.shape(r) == exp_shape:
+        if bad == "bad_shape" and adapter != "vmap" and np.shape(r) == exp_shape:
             return []
         return [Violation(f"C15|bad_output_accepted|{bad}|{adapter}", f"{where0}): the adapted function returned a {bad[4:]}-wrong value and the call returned {type(r).__name__} of shape {np.shape(r)} instead of failing")]
 
     # reference: loop semantics with the same function as elementary operation
     feats = G.features(base)
-    nbr = sum(1 for l, b in X.walk_leaves(X.expand(base["ins"][0])) if b) if adapter == "reduce" else 0
+    nbr = sum(1 for l, b in X.walk_leaves(X.expand(base["ins"][0])) if b) if adapter in ("reduce", "vmap") else 0
     for ci, enc in enumerate(rc["history"]):
         opts = {k: decode(v) for k, v in enc.items()}
         ref_rec = Recorder()
-        ref_user = make_fn(fname, ref_rec)
-        if adapter == "reduce":
+        ref_user = make_fn(fname, ref_rec) if adapter != "vmap" else make_vm_fn(fname, ref_rec, out_shapes)
+        if adapter == "vmap":
+            el = lambda *xs, ref_user=ref_user, opts=opts: ref_user(*xs, **opts)
+        elif adapter == "reduce":
             el = lambda s, ref_user=ref_user, opts=opts: ref_user(s, tuple(range(np.ndim(s))), **opts)
         else:
             el = lambda *xs, ref_user=ref_user, opts=opts: ref_user(*[x[()] for x in xs], **opts)
         try:
-            expected = L.run_op("custom", base["ins"], base["outs"], env, arrays, {"_fn": el})[0]
+            if adapter == "vmap":
+                expected = L.run_custom(base["ins"], base["outs"], env, arrays, el)
+            else:
+                expected = L.run_op("custom", base["ins"], base["outs"], env, arrays, {"_fn": el})[0]
         except L.Unsupported:
             stats.count("harness:reference_unsupported")
             return []
@@ -274,24 +301,52 @@ def evaluate(rc, stats):
         if opts or nbr >= 2 or feats["flatten"] or feats["squeeze"] or feats["broadcast"]:
             stats.nt([adapter, G.canon_key(base), fname, sorted((k, type(v).__name__) for k, v in opts.items())])
         stats.sample({"adapter": adapter, "fn": fname, "desc": desc, "options": {k: repr(v) for k, v in opts.items()}, "shapes": [list(a.shape) for a in arrays]}, cap=6)
-        if len(rec.calls) != 1:
-            return [Violation(f"C15|call_count|{adapter}", f"{where}: the adapted function was called {len(rec.calls)} times")]
-        call = rec.calls[0]
+        ncalls_expected = [1]
+        if adapter == "vmap":
+            # the loop vmap calls the function once per assignment of the vectorised axes (of the inputs; whether axes that
+            # only occur in an output are looped over or broadcast afterwards is not observable for a pure function)
+            def nloops(exprs):
+                vl = {}
+                for e in exprs:
+                    for leaf, b in X.walk_leaves(X.expand(e)):
+                        if not b:
+                            vl[X.leaf_key(leaf)] = env[leaf[1]] if leaf[0] == "ax" else leaf[1]
+                return int(np.prod(list(vl.values()))) if vl else 1
+
+            ncalls_expected = [nloops(base["ins"]), nloops(base["ins"] + base["outs"])]
+        if len(rec.calls) not in ncalls_expected:
+            return [Violation(f"C15|call_count|{adapter}", f"{where}: the adapted function was called {len(rec.calls)} times, expected {ncalls_expected[0]}")]
         # options verbatim
-        for k, v in opts.items():
-            gotv = call["opts"].get(k)
-            if not same_value(v, gotv):
-                prev = [decode(h.get(k)) for h in rc["history"][:ci] if k in h]
-                twin = any(p == v and type(p) is not type(v) for p in prev if not (isinstance(p, float) and p != p))
-                if twin:
-                    kind = "hash_equal_history"
-                elif isinstance(v, np.generic):
-                    kind = "numpy_scalar->python_scalar"
-                elif isinstance(v, (list, tuple)):
-                    kind = "container_converted"
-                else:
-                    kind = f"{type(v).__name__}->{type(gotv).__name__}"
-                return [Violation(f"C15|option_not_verbatim|{kind}", f"{where}: option {k}={v!r} ({type(v).__name__}) arrived as {gotv!r} ({type(gotv).__name__})")]
+        for call in (rec.calls[:1] + rec.calls[-1:]) if adapter == "vmap" else rec.calls[:1]:
+            for k, v in opts.items():
+                gotv = call["opts"].get(k)
+                if not same_value(v, gotv):
+                    prev = [decode(h.get(k)) for h in rc["history"][:ci] if k in h]
+                    twin = any(_plain_eq(p, v) and type(p) is not type(v) for p in prev if not (isinstance(p, float) and p != p))
+                    if twin:
+                        kind = "hash_equal_history"
+                    elif isinstance(v, np.generic):
+                        kind = "numpy_scalar->python_scalar"
+                    elif isinstance(v, (list, tuple)):
+                        kind = "container_converted"
+                    else:
+                        kind = f"{type(v).__name__}->{type(gotv).__name__}"
+                    return [Violation(f"C15|option_not_verbatim|{kind}", f"{where}: option {k}={v!r} ({type(v).__name__}) arrived as {gotv!r} ({type(gotv).__name__})")]
+        call = rec.calls[0]
+        if adapter == "vmap":
+            gots = got if len(base["outs"]) > 1 else (got,)
+            if not isinstance(gots, tuple) or len(gots) != len(expected):
+                return [Violation("C15|arity|vmap", f"{where}: expected {len(expected)} outputs, got {type(got).__name__}")]
+            for j, (e, g) in enumerate(zip(expected, gots)):
+                msg = L.compare(np.asarray(e), g)
+                if msg is not None:
+                    return [Violation(f"C15|value|{adapter}|{c_features(feats)}", f"{where} output {j}: {msg}")]
+            want = [tuple(X.br_shape(e, env)) for e in base["ins"]]
+            want2 = [tuple(X.el_shape(e, env)) for e in base["ins"]]  # compositions inside brackets kept: equally "the bracketed sub-tensor"
+            for c in rec.calls:
+                if [a.shape for a in c["args"]] not in (want, want2):
+                    return [Violation("C15|subtensor_shapes|vmap", f"{where}: the function received tensors of shapes {[a.shape for a in c['args']]}, the bracketed sub-tensors have shapes {want}")]
+            continue
         msg = L.compare(np.asarray(expected), got)
         if msg is not None:
             return [Violation(f"C15|value|{adapter}|{c_features(feats)}", f"{where}: {msg}")]
